@@ -30,7 +30,7 @@ RULE = ("grammar-aware fault enumeration (full product of per-field alphabets, n
 ASSUMPTIONS = ["the crafted reply is repeated for every retransmission", "frames carried by 'valid' bodies are well-formed state reports"]
 IP, PORT = "10.0.0.3", 6444
 CMD = bytes.fromhex("aa21ac8d000000000003418100ff03ff000200000000000000000000000003016971")
-DRIVERS = ["send", "command", "refresh"]
+DRIVERS = ["send", "command", "refresh", "send-then-send"]
 IDLE_DRIVERS = ["send-idle", "refresh-idle"]
 
 V2_MARKERS = [b"\x5a\x5a", b"\x5a\x5b", b"\x00\x00", b"\x83\x70", b"\xaa\x20"]
@@ -43,7 +43,7 @@ V3_PHASES = ["handshake", "data"]
 V3_PADS = [0, 1, 15]
 V3_MAGIC = [0x20, 0x00, 0xFF]
 V3_SIZES = [0, 1, 31, 32, 33, 48, 64, "actual", "actual-1", "actual+1"]
-V3_BODIES = ["valid", "tagged-garbage", "signed-badpad", "tagged-empty", "misaligned", "filler", "tag-only", "tag-only-1block"]
+V3_BODIES = ["valid", "valid-ctr-ffff", "valid-ctr-1000", "tagged-garbage", "signed-badpad", "tagged-empty", "misaligned", "filler", "tag-only", "tag-only-1block"]
 
 
 def bounds(tier):
@@ -101,7 +101,7 @@ def craft_v2(marker, lf, cipher, sig, trunc) -> bytes:
 
 
 def inner_v2(kind: str) -> bytes:
-    if kind == "valid":
+    if kind.startswith("valid"):
         return rc.v2_build(GOOD_FRAME, 7)
     if kind == "signed-badpad":
         return craft_v2(b"\x5a\x5a", "n", "badpad", "valid", None)
@@ -130,7 +130,8 @@ def craft_v3(phase, ptype, pad, magic, size, body, sk, hs_body) -> bytes:
         inner = inner_v2(body)
         rem = (len(inner) + 2) % 16
         p = 0 if rem == 0 else 16 - rem
-        plain = b"\x00\x01" + inner + bytes(p)
+        ctr = {"valid-ctr-ffff": b"\xff\xff", "valid-ctr-1000": b"\x10\x00"}.get(body, b"\x00\x01")
+        plain = ctr + inner + bytes(p)
         size_f = len(inner) + p + 32
         # tag is computed over the header actually sent (so it verifies when the library accepts the header)
         asz = size_f if isinstance(size, str) else size
@@ -171,6 +172,19 @@ def make_driver(name: str, w: World, version: int, token, key, idle=None):
             await ac0.refresh()
             await ac0.apply()
             return ac0.online
+        return drive
+    if name == "send-then-send":
+        lan2 = LAN(IP, PORT, 7)
+
+        async def drive():
+            if version == 3:
+                await lan2.authenticate(token, key)
+            try:
+                await lan2.send(CMD)
+            except (ProtocolError, TimeoutError):
+                pass
+            idle["honest"] = True          # whatever the crafted reply left behind: the next exchange is answered honestly
+            return await lan2.send(CMD)
         return drive
     if name in ("send", "authenticate"):
         lan = LAN(IP, PORT, 7)
@@ -222,7 +236,7 @@ def execute(version: int, phase: str, crafter, driver: str):
     idle["inject_after_auth"] = inject if version == 3 else (lambda: None)
 
     def script(req):
-        if phase != "idle" and (version == 2 or req.kind == phase):
+        if phase != "idle" and (version == 2 or req.kind == phase) and not idle.get("honest"):
             pkt = crafter(req)
             sent.append(pkt)
             if pkt:
